@@ -62,7 +62,7 @@ def build(ctx):
         parts("tags-%s-n%d" % (t or "none", n), n, ["-DPREFIX=" + cstr(pre)],
               {"mode": "prefix '/a\\0\\0,%s' fixed, %d payload bytes symbolic" % (t, room)}, kmax=nargs,
               wopt=None if nargs else "with arguments")
-    ctx.bounds = {"fully_symbolic_n_max": full_max, "structured_n_max": max(q.descr["n"] for q in ctx.queries),
+    ctx.bounds = {"fully_symbolic_n_max": full_max, "structured_n_max": max(q.descr.get("n", 0) for q in ctx.queries),
                   "unwind": "2n+8 per loop (cbmc accumulates iterations of a while-loop over re-entries and repeated calls), with unwinding assertions (doubles as the termination check)"}
     ctx.assumptions = ["x86-64 LP64, -DNDEBUG (library assert() compiled out)",
                        "reference decoder treats unknown type tags as carrying no payload (as the library documents)",
